@@ -37,6 +37,9 @@ def main(argv=None) -> int:
         return ctx.finish()
     except MachineryFailure as e:
         print(f"MACHINERY-FAILURE {pid}: {e}")
+        if not os.environ.get("VERIF_KEEP_WORK"):
+            from . import tlc as _t
+            _t.cleanup(f"{pid}_{a.tier}_{os.getpid()}")
         return 2
     except Exception:
         traceback.print_exc()
